@@ -215,7 +215,8 @@ def map_nested_value(func: Callable, value: Any) -> Any:
         # Set non-init fields.
         for field in dataclasses.fields(value):
             if not field.init:
-                setattr(
+                # This syntax is frozen dataclass compatible.
+                object.__setattr__(
                     mapped_value, field.name, map_nested_value(func, getattr(value, field.name))
                 )
 
